@@ -33,7 +33,7 @@ public:
         return *this;
     }
 
-    FASTOR_INLINE TensorDiagViewExpr(Tensor<T,M,N> &_ex) : _expr(_ex) {
+    FASTOR_INLINE TensorDiagViewExpr(TensorType<T,M,N> &_ex) : _expr(_ex) {
         static_assert(M==N, "MATRIX MUST BE SQUARE FOR DIAGONAL VIEW");
     }
 
